@@ -460,6 +460,7 @@ func ruleClassify(c *Ctx) {
 		c.Undecided("CLASSIFY", "anchor:ipinfo-helpers", "-", "GetIPInfoFromIP / GetIPInfoFromAddr not found")
 		return
 	}
+	inPkg := func(h *ssa.Function) bool { return eng.PkgPathOf(h) != eng.Mod+"/ipinfo" }
 	storeOf := func(code string) func(ssa.Instruction) bool {
 		return func(ins ssa.Instruction) bool {
 			st, ok := ins.(*ssa.Store)
@@ -490,147 +491,163 @@ func ruleClassify(c *Ctx) {
 		_, fl, _, ok := eng.FieldOf(fa)
 		return ok && fl == "CountryCode"
 	}
+	// ---- the IP helper and its region ----
 	f := fromIP
 	key := short(f)
-	var db, guc *ssa.Call
-	for _, cl := range eng.Calls(f) {
-		if call, ok := cl.(*ssa.Call); ok {
-			if call.Call.IsInvoke() && call.Call.Method.Name() == "GetIPInfo" {
-				db = call
-			}
-			if eng.CalleeName(&call.Call) == "(net.IP).IsGlobalUnicast" {
-				guc = call
-			}
-		}
-	}
-	if db == nil || guc == nil {
+	reg := c.NewRegion(f, 3, inPkg)
+	dbs := reg.FindCalls(func(_ string, call *ssa.Call) bool { return call.Call.IsInvoke() && call.Call.Method.Name() == "GetIPInfo" })
+	gucs := reg.FindCalls(func(n string, _ *ssa.Call) bool { return n == "(net.IP).IsGlobalUnicast" })
+	if len(dbs) == 0 || len(gucs) == 0 {
 		c.Undecided("CLASSIFY", key+":anchors", p.Pos(f.Pos()), "the helper lost its database call or its IsGlobalUnicast test")
 		return
 	}
-	// the database is consulted only on: map != nil, ip != nil, global unicast
-	_, mapNN := p.NilEdges(f, func(v ssa.Value) bool { return eng.IsParam(v, f, 0) })
-	ipNil, ipNN := p.NilEdges(f, func(v ssa.Value) bool { return eng.IsParam(v, f, 1) })
-	mapNil, _ := p.NilEdges(f, func(v ssa.Value) bool { return eng.IsParam(v, f, 0) })
-	gT, gF := eng.BoolEdges(f, func(v ssa.Value) bool { return v == ssa.Value(guc) })
-	okArg, _ := p.AllFrom(guc.Call.Args[0], eng.Plain, func(v ssa.Value) bool { return eng.IsParam(v, f, 1) })
-	c.CheckAt("CLASSIFY", key+":global-test-on-the-address", guc, okArg, "IsGlobalUnicast is tested on something other than the address parameter")
-	c.CheckAt("CLASSIFY", key+":database-only-when-enabled", db, len(mapNN) > 0 && eng.Cut(f, db.Block(), mapNN), "the database is consulted although location lookup is disabled (nil map)")
-	c.CheckAt("CLASSIFY", key+":database-only-for-parsed-address", db, len(ipNN) > 0 && eng.Cut(f, db.Block(), ipNN), "the database is consulted for a nil address")
-	c.CheckAt("CLASSIFY", key+":database-only-for-global-addresses", db, len(gT) > 0 && eng.Cut(f, db.Block(), gT), "the database is consulted for a non-global address (the location of local addresses must be decided by class alone)")
-	okDB, _ := p.AllFrom(db.Call.Args[0], eng.Plain, func(v ssa.Value) bool { return eng.IsParam(v, f, 1) })
-	c.CheckAt("CLASSIFY", key+":database-asked-about-the-address", db, okDB, "the database is asked about something other than the address parameter")
-	// codes on their edges: every path from the edge passes the store, and the store is cut by the edge set
-	type rule struct {
-		code  string
-		edges eng.EdgeSet
-		what  string
+	isMap := func(v ssa.Value) bool { g, _ := p.AllFrom(v, deepF, func(x ssa.Value) bool { return eng.IsParam(x, f, 0) }); return g }
+	isIP := func(v ssa.Value) bool { g, _ := p.AllFrom(v, deepF, func(x ssa.Value) bool { return eng.IsParam(x, f, 1) }); return g }
+	gMapNN := c.NewGuard(func(fn *ssa.Function) eng.EdgeSet { _, nn := p.NilEdges(fn, isMap); return nn })
+	gMapNil := c.NewGuard(func(fn *ssa.Function) eng.EdgeSet { n, _ := p.NilEdges(fn, isMap); return n })
+	gIPNN := c.NewGuard(func(fn *ssa.Function) eng.EdgeSet { _, nn := p.NilEdges(fn, isIP); return nn })
+	gIPNil := c.NewGuard(func(fn *ssa.Function) eng.EdgeSet { n, _ := p.NilEdges(fn, isIP); return n })
+	isGuc := func(call *ssa.Call) bool { return eng.CalleeName(&call.Call) == "(net.IP).IsGlobalUnicast" && isIP(call.Call.Args[0]) }
+	gGlobal := c.BoolGuard(isGuc, true)
+	gLocal := c.BoolGuard(isGuc, false)
+	for _, guc := range gucs {
+		c.CheckAt("CLASSIFY", key+":global-test-on-the-address", guc, isIP(guc.Call.Args[0]), "IsGlobalUnicast is tested on something other than the address parameter")
 	}
-	_, dbFail := p.SuccessEdges(f, []ssa.CallInstruction{db}, 1)
-	// empty country test
-	empty := eng.EdgeSet{}
-	for _, b := range f.Blocks {
-		iff, ok := b.Instrs[len(b.Instrs)-1].(*ssa.If)
-		if !ok {
-			continue
-		}
-		bo, ok := iff.Cond.(*ssa.BinOp)
-		if !ok {
-			continue
-		}
-		if s, ok := eng.ConstString(bo.Y); ok && s == "" {
-			if _, fl, _, ok := eng.FieldLoad(bo.X); ok && fl == "CountryCode" {
-				if bo.Op == token.EQL {
-					empty[eng.Edge{From: b, To: b.Succs[0]}] = true
-				} else if bo.Op == token.NEQ {
-					empty[eng.Edge{From: b, To: b.Succs[1]}] = true
-				}
+	for _, db := range dbs {
+		c.CheckAt("CLASSIFY", key+":database-only-when-enabled", db, reg.CutDeep(db, gMapNN), "the database is consulted although location lookup is disabled (nil map)")
+		c.CheckAt("CLASSIFY", key+":database-only-for-parsed-address", db, reg.CutDeep(db, gIPNN), "the database is consulted for a nil address")
+		c.CheckAt("CLASSIFY", key+":database-only-for-global-addresses", db, reg.CutDeep(db, gGlobal), "the database is consulted for a non-global address (the location of local addresses must be decided by class alone)")
+		c.CheckAt("CLASSIFY", key+":database-asked-about-the-address", db, isIP(db.Call.Args[0]), "the database is asked about something other than the address parameter")
+	}
+	gDBFail := c.NewGuard(func(fn *ssa.Function) eng.EdgeSet {
+		out := eng.EdgeSet{}
+		for _, db := range dbs {
+			if db.Parent() == fn {
+				_, fl := p.SuccessEdges(fn, []ssa.CallInstruction{db}, 1)
+				out = eng.Union(out, fl)
 			}
 		}
-	}
-	for _, r := range []rule{{"XL", gF, "non-global address"}, {"XD", dbFail, "database error"}, {"ZZ", empty, "empty country"}, {"XA", ipNil, "nil address"}} {
-		if len(r.edges) == 0 {
-			c.Check("CLASSIFY", key+":"+r.code+":edge", p.Pos(f.Pos()), false, "no test for the "+r.what+" case")
-			continue
-		}
-		q := storeOf(r.code)
-		for _, e := range sortedEdges(r.edges) {
-			ok, bad := eng.MustPass(edgePoint(e), q)
-			c.Check("CLASSIFY", key+":"+r.code+":assigned-on-every-"+strings.ReplaceAll(r.what, " ", "-")+"-path", blockPos(p, e.To), ok, fmt.Sprintf("on the %s edge the function can return at %s without labelling the location %s", r.what, p.IPos(bad), r.code))
-		}
-		for _, b := range f.Blocks {
-			for _, ins := range b.Instrs {
-				if q(ins) {
-					c.CheckAt("CLASSIFY", key+":"+r.code+":only-on-its-edge", ins, eng.Cut(f, b, r.edges), r.code+" is assigned on a path that is not the "+r.what+" case")
-				}
+		return out
+	})
+	gEmpty := c.NewGuard(func(fn *ssa.Function) eng.EdgeSet {
+		out := eng.EdgeSet{}
+		for _, b := range fn.Blocks {
+			iff, ok := b.Instrs[len(b.Instrs)-1].(*ssa.If)
+			if !ok {
+				continue
 			}
-		}
-	}
-	// XD is final unless... the empty-country rule applies after it: ZZ must not overwrite XD → after an XD store the CountryCode is non-empty, fine structurally.
-	// disabled: no code at all
-	for _, e := range sortedEdges(mapNil) {
-		bad := eng.ReachableInstrs(edgePoint(e), anyCodeStore, nil)
-		c.Check("CLASSIFY", key+":empty-when-disabled", blockPos(p, e.To), len(bad) == 0, "a location code is assigned although lookup is disabled")
-	}
-	// no other codes are invented here
-	for _, b := range f.Blocks {
-		for _, ins := range b.Instrs {
-			if st, ok := ins.(*ssa.Store); ok && anyCodeStore(ins) {
-				if s, ok := eng.ConstString(st.Val); ok {
-					switch s {
-					case "XA", "XL", "XD", "ZZ":
-					default:
-						c.CheckAt("CLASSIFY", key+":unknown-code:"+s, ins, false, "a location code other than XA/XL/XD/ZZ is assigned")
+			bo, ok := iff.Cond.(*ssa.BinOp)
+			if !ok {
+				continue
+			}
+			if s, ok := eng.ConstString(bo.Y); ok && s == "" {
+				if _, fl, _, ok := eng.FieldLoad(bo.X); ok && fl == "CountryCode" {
+					if bo.Op == token.EQL {
+						out[eng.Edge{From: b, To: b.Succs[0]}] = true
+					} else if bo.Op == token.NEQ {
+						out[eng.Edge{From: b, To: b.Succs[1]}] = true
 					}
 				}
 			}
 		}
+		return out
+	})
+	type rule struct {
+		code string
+		g    *Guard
+		what string
 	}
-
-	// the address helper: parse failures → XA on every path, and the IP helper is called only after successful parsing, with the parsed IP
-	g := fromAddr
-	gk := short(g)
-	var split, parse, inner *ssa.Call
-	for _, cl := range eng.Calls(g) {
-		if call, ok := cl.(*ssa.Call); ok {
-			switch eng.CalleeName(&call.Call) {
-			case "net.SplitHostPort":
-				split = call
-			case "net.ParseIP":
-				parse = call
-			case "ipinfo.GetIPInfoFromIP":
-				inner = call
+	for _, r := range []rule{{"XL", gLocal, "non-global address"}, {"XD", gDBFail, "database error"}, {"ZZ", gEmpty, "empty country"}, {"XA", gIPNil, "nil address"}} {
+		q := storeOf(r.code)
+		nEdges := 0
+		for _, fn := range reg.Fns {
+			for _, e := range sortedEdges(r.g.prim(fn)) {
+				nEdges++
+				ok, bad := reg.MustPassUp(edgePoint(e), q)
+				c.Check("CLASSIFY", key+":"+r.code+":assigned-on-every-"+strings.ReplaceAll(r.what, " ", "-")+"-path", blockPos(p, e.To), ok, fmt.Sprintf("on the %s edge the code can return at %s without labelling the location %s", r.what, p.IPos(bad), r.code))
 			}
 		}
+		if nEdges == 0 {
+			c.Check("CLASSIFY", key+":"+r.code+":edge", p.Pos(f.Pos()), false, "no test for the "+r.what+" case")
+		}
+		reg.Instrs(func(fn *ssa.Function, ins ssa.Instruction) {
+			if q(ins) {
+				c.CheckAt("CLASSIFY", key+":"+r.code+":only-on-its-edge", ins, reg.CutDeep(ins, r.g), r.code+" is assigned on a path that is not the "+r.what+" case")
+			}
+		})
 	}
-	if split == nil || parse == nil || inner == nil {
+	// disabled: no code at all
+	for _, fn := range reg.Fns {
+		for _, e := range sortedEdges(gMapNil.prim(fn)) {
+			bad := eng.ReachableInstrs(edgePoint(e), reg.May(anyCodeStore), nil)
+			c.Check("CLASSIFY", key+":empty-when-disabled", blockPos(p, e.To), len(bad) == 0, "a location code is assigned although lookup is disabled")
+		}
+	}
+	reg.Instrs(func(fn *ssa.Function, ins ssa.Instruction) {
+		if st, ok := ins.(*ssa.Store); ok && anyCodeStore(ins) {
+			if s, ok := eng.ConstString(st.Val); ok {
+				switch s {
+				case "XA", "XL", "XD", "ZZ":
+				default:
+					c.CheckAt("CLASSIFY", key+":unknown-code:"+s, ins, false, "a location code other than XA/XL/XD/ZZ is assigned")
+				}
+			}
+		}
+	})
+
+	// ---- the address helper ----
+	g := fromAddr
+	gk := short(g)
+	areg := c.NewRegion(g, 3, func(h *ssa.Function) bool { return inPkg(h) || h == fromIP })
+	splits := areg.FindCalls(func(n string, _ *ssa.Call) bool { return n == "net.SplitHostPort" })
+	parses := areg.FindCalls(func(n string, _ *ssa.Call) bool { return n == "net.ParseIP" })
+	inners := areg.FindCalls(func(_ string, call *ssa.Call) bool { return callTo(c, call, fromIP) })
+	if len(splits) == 0 || len(parses) == 0 || len(inners) == 0 {
 		c.Undecided("CLASSIFY", gk+":anchors", p.Pos(g.Pos()), "the address helper lost SplitHostPort / ParseIP / the call to the IP helper")
 		return
 	}
-	addrNil, _ := p.NilEdges(g, func(v ssa.Value) bool { return eng.IsParam(v, g, 1) })
-	splitOK, splitFail := p.SuccessEdges(g, []ssa.CallInstruction{split}, 2)
-	parseNil, parseNN := p.NilEdges(g, func(v ssa.Value) bool { return v == ssa.Value(parse) })
-	for name, es := range map[string]eng.EdgeSet{"nil-address": addrNil, "unsplittable-address": splitFail, "unparseable-host": parseNil} {
-		if len(es) == 0 {
-			c.Check("CLASSIFY", gk+":XA:"+name+":edge", p.Pos(g.Pos()), false, "no test for the "+name+" case")
-			continue
-		}
-		for _, e := range sortedEdges(es) {
-			ok, bad := eng.MustPass(edgePoint(e), storeOf("XA"))
-			c.Check("CLASSIFY", gk+":XA:assigned-on-every-"+name+"-path", blockPos(p, e.To), ok, fmt.Sprintf("on the %s edge the function can return at %s without labelling the location XA", name, p.IPos(bad)))
-			reach := eng.ReachableInstrs(edgePoint(e), func(ins ssa.Instruction) bool { return ins == ssa.Instruction(inner) }, nil)
-			c.Check("CLASSIFY", gk+":XA:"+name+":no-lookup", blockPos(p, e.To), len(reach) == 0, "a lookup is made for an address that could not be parsed")
-		}
+	gSplitOK := c.CallGuard(func(call *ssa.Call) (int, bool) { return 2, eng.CalleeName(&call.Call) == "net.SplitHostPort" })
+	gParseOK := c.NewGuard(func(fn *ssa.Function) eng.EdgeSet {
+		_, nn := p.NilEdges(fn, func(v ssa.Value) bool {
+			cc, ok := v.(*ssa.Call)
+			return ok && eng.CalleeName(&cc.Call) == "net.ParseIP"
+		})
+		return nn
+	})
+	isAddr := func(v ssa.Value) bool { g2, _ := p.AllFrom(v, deepF, func(x ssa.Value) bool { return eng.IsParam(x, g, 1) }); return g2 }
+	gAddrNN := c.NewGuard(func(fn *ssa.Function) eng.EdgeSet { _, nn := p.NilEdges(fn, isAddr); return nn })
+	for _, inner := range inners {
+		c.CheckAt("CLASSIFY", gk+":lookup-only-after-parsing", inner, areg.CutDeep(inner, gSplitOK) && areg.CutDeep(inner, gParseOK), "the IP helper is called before the address was successfully split and parsed")
+		c.CheckAt("CLASSIFY", gk+":lookup-only-for-non-nil-address", inner, areg.CutDeep(inner, gAddrNN), "the IP helper is reachable for a nil address")
+		okIP, _ := p.AllFrom(inner.Call.Args[1], deepF, func(v ssa.Value) bool { return inCalls(v, parses, 0) })
+		c.CheckAt("CLASSIFY", gk+":classifies-the-parsed-ip", inner, okIP, "the IP classified is not the result of ParseIP")
 	}
-	c.CheckAt("CLASSIFY", gk+":lookup-only-after-parsing", inner, len(splitOK) > 0 && eng.Cut(g, inner.Block(), splitOK) && len(parseNN) > 0 && eng.Cut(g, inner.Block(), parseNN), "the IP helper is called before the address was successfully split and parsed")
-	okIP, _ := p.AllFrom(inner.Call.Args[1], eng.Plain, func(v ssa.Value) bool { return v == ssa.Value(parse) })
-	okHost, _ := p.AllFrom(parse.Call.Args[0], eng.Plain, func(v ssa.Value) bool { return eng.ResultOf(v, split, 0) })
-	okSrc := p.AnyFrom(split.Call.Args[0], eng.OriginOpts{ThroughCalls: func(cc *ssa.Call) []ssa.Value {
-		if eng.MethodName(&cc.Call) == "String" {
-			return []ssa.Value{eng.Receiver(&cc.Call)}
+	for _, parse := range parses {
+		okHost, _ := p.AllFrom(parse.Call.Args[0], deepF, func(v ssa.Value) bool { return inCalls(v, splits, 0) })
+		c.CheckAt("CLASSIFY", gk+":parses-the-host-of-the-address", parse, okHost, "ParseIP is not applied to the host part of the given address")
+	}
+	for _, split := range splits {
+		okSrc := p.AnyFrom(split.Call.Args[0], eng.OriginOpts{ThroughConvert: true, Interproc: true, ThroughCalls: stringOf}, func(v ssa.Value) bool { return eng.IsParam(v, g, 1) })
+		c.CheckAt("CLASSIFY", gk+":splits-the-given-address", split, okSrc, "SplitHostPort is not applied to String() of the given address")
+	}
+	// every return of the address helper is preceded by an XA label or by the lookup: no path can report an unparseable address without XA
+	isRootReturn := func(ins ssa.Instruction) bool { _, ok := ins.(*ssa.Return); return ok && ins.Parent() == g }
+	isXAorLookup := func(ins ssa.Instruction) bool {
+		if storeOf("XA")(ins) {
+			return true
 		}
-		return nil
-	}}, func(v ssa.Value) bool { return eng.IsParam(v, g, 1) })
-	c.CheckAt("CLASSIFY", gk+":classifies-the-given-address", inner, okIP && okHost && okSrc, "the IP classified is not ParseIP(host of the given address)")
+		cl, ok := ins.(*ssa.Call)
+		return ok && callTo(c, cl, fromIP)
+	}
+	okXA, badXA := areg.BeforeDeep(isXAorLookup, isRootReturn)
+	c.Check("CLASSIFY", gk+":XA-on-every-path-without-lookup", p.Pos(g.Pos()), okXA, fmt.Sprintf("the address helper can return at %s without having labelled the location XA and without a lookup: an unparseable address gets an empty label", p.IPos(badXA)))
+	// XA in the address helper is assigned only when parsing failed (not behind all three success guards)
+	areg.Instrs(func(fn *ssa.Function, ins ssa.Instruction) {
+		if storeOf("XA")(ins) {
+			allOK := areg.CutDeep(ins, gSplitOK) && areg.CutDeep(ins, gParseOK) && areg.CutDeep(ins, gAddrNN)
+			c.CheckAt("CLASSIFY", gk+":XA-only-on-parse-failure", ins, !allOK, "XA is assigned although the address was parsed successfully")
+		}
+	})
 	// callers in the metrics code use these helpers for every location label (no direct database access elsewhere)
 	for _, fn := range p.Fns {
 		if eng.PkgPathOf(fn) == eng.Mod+"/ipinfo" {
